@@ -269,4 +269,5 @@ def project_run(static_trace, cfg, gs0, history, log_entries, gs_final, rngidx, 
         t["ref"] = ref
     if train:
         t["train"] = train
+        t["ref_first"] = True
     return t
